@@ -209,6 +209,8 @@ pub const CORPUS: &[&str] = &[
     "SELECT id, age * (score + 1) AS a, (age + 1) * score AS b, age % 3 AS m, -age % 3 AS nm, -(age % 3) AS mn FROM users ORDER BY id",
     "SELECT DISTINCT city FROM users ORDER BY city LIMIT 2",
     "SELECT city, count(*) AS c FROM users GROUP BY city HAVING count(*) > 1 AND avg(age) > 20 ORDER BY city",
+    // literals far from 1 that need all 17 significant digits of an f64
+    "SELECT id, score * 1.2345678901234567e-11 AS t, score + 98765432109.87654 AS u, score * 0.00000000000123456789012345678 AS v, score * 7.0000000000000007e15 AS w FROM users ORDER BY id",
     // the clock: nothing in a compilation may depend on when (or on which thread) it ran
     "SELECT id, CURRENT_TIMESTAMP AS seen_at FROM users ORDER BY id",
     "SELECT id, CURRENT_DATE AS d, CURRENT_TIME AS t FROM users WHERE age > 20 ORDER BY id",
